@@ -109,7 +109,8 @@ def gen_opts(draw):
             "int_values": draw(st.booleans()), "false_as_0": draw(st.booleans()),
             "type_signed": draw(st.sampled_from([None, None, "match", "true", "false", "opposite"])),
             "container_order": draw(st.sampled_from([None, None, "reversed", "rotated"])),
-            "legacy_float_names": draw(st.booleans())}
+            "legacy_float_names": draw(st.booleans()),
+            "xsi": draw(st.sampled_from([False, False, True]))}    # an unrelated xmlns:xsi declaration on the root
 
 
 @st.composite
